@@ -9,23 +9,18 @@ import (
 
 func init() {
 	subcmds["dbg"] = func(args []string) int {
-		t0 := time.Now()
 		b, _ := NewBroker(BrokerOpts{})
-		fmt.Println("new", time.Since(t0))
 		c := b.Dial()
-		_, err := c.Connect(ConnectOpts{ID: "a", Ver: mqttp.ProtocolV311, Clean: true})
-		fmt.Println("connect", time.Since(t0), err)
-		a := c.Auto(false)
-		_ = a
-		cc := mqttp.NewConnect(mqttp.ProtocolV311)
-		_ = cc.SetClientID([]byte("a"))
-		_ = a.SendL(cc)
-		time.Sleep(200 * time.Millisecond)
-		fmt.Println("closed?", a.Closed())
-		t1 := time.Now()
-		ok := b.Close(10 * time.Second)
-		fmt.Println("closedur", time.Since(t1))
-		fmt.Println("close", time.Since(t0), ok)
+		_, err := c.Connect(ConnectOpts{ID: "a", Ver: mqttp.ProtocolV50, Clean: true})
+		fmt.Println(err)
+		raw, _ := c06Build(mqttp.ProtocolV50, c06Pkt{T: 10, ID: 45, NF: 2}, 1)
+		_ = c.SendRaw(raw)
+		time.Sleep(100 * time.Millisecond)
+		tmp := make([]byte, 100)
+		n, _ := c.conn.Read(tmp)
+		fmt.Println(tmp[:n])
+		p, _, err := mqttp.Decode(mqttp.ProtocolV50, tmp[:n])
+		fmt.Println(p, err)
 		return 0
 	}
 }
